@@ -28,8 +28,9 @@
 // (events of a scenario are buffered until it ends so that the pool is
 // complete), the distance to the minimiser is one E4 fixed-point number.
 //
-//   drv_optim --out F --n N [--only OptName] [--stats 1]
+//   drv_optim --out F --n N [--sub K] [--sc ID] [--only OptName] [--nosteer 1] [--stats 1]
 #include "tracer.h"
+#include "param_audit.h"
 
 #include <Bpp/App/ApplicationTools.h>
 #include <Bpp/Exceptions.h>
@@ -90,6 +91,7 @@ public:
   long evals, cap;
   bool capHit;
   double kmax = 1e3; // upper end of the condition numbers drawn for this objective
+  double smax = 1.5; // upper end of the scale factors of the exp family
 
   HFn(size_t n_) : AbstractParametrizable(""), n(n_), kind(0), A(), w(), m(), c(0), mu(0), kappa(1), d1(true), d2(true), record(false), sink(nullptr), evals(0), cap(1000000), capHit(false)
   {
@@ -480,7 +482,7 @@ static void makeObjective(Rng& g, HFn& f, int kind)
     f.w.assign(n, 0.);
     for (size_t k = 0; k < n; ++k)
     {
-      double sc = kind == 3 ? logUniform(g, 0.3, 5.) : (g.coin() ? 1. : -1.) * logUniform(g, 0.2, 1.5);
+      double sc = kind == 3 ? logUniform(g, 0.3, 5.) : (g.coin() ? 1. : -1.) * logUniform(g, 0.2, f.smax);
       for (size_t j = 0; j < n; ++j) f.A[k][j] = sc * (q.empty() ? (j == k ? 1. : 0.) : q[k][j]);
       f.w[k] = logUniform(g, 0.3, 3.);
     }
@@ -520,6 +522,7 @@ public:
   std::map<string, Stats> stats;
   string only;
   bool quadOnly = false;
+  bool steer = true; // keep the main scenarios out of the regions of the known findings (probes switch it off)
 
   explicit Driver(uint64_t seed) : g(seed), stats(), only() {}
 
@@ -559,6 +562,9 @@ public:
       else kind = u < 52 ? 0 : u < 64 ? 1 : u < 76 ? 2 : u < 88 ? 3 : 4;
     }
     auto f = std::make_shared<HFn>(n);
+    // known finding C10-simplex-premature-stop: the simplex method on quadratics with condition number >= 50 in
+    // dimension >= 5; the main scenarios stay below, the probe goes there
+    if (steer && opt == "DownhillSimplex" && n >= 5) f->kmax = 49.;
     makeObjective(g, *f, kind);
     Scenario sc;
     // start
@@ -703,6 +709,9 @@ public:
     {
       static const char* inner[] = {"Bfgs", "ConjugateGradient", "Powell", "DownhillSimplex", "Simple", "SimpleNewton"};
       auto desc = std::unique_ptr<bpp::MetaOptimizerInfos>(new bpp::MetaOptimizerInfos());
+      unsigned nn = 1 + static_cast<unsigned>(g.below(3));
+      // known finding: the simplex method as above
+      bool simplexOk = !steer || n <= 4 || f->kappa < 50.;
       size_t groups = (n >= 2 && g.coin()) ? 2 : 1;
       size_t cut = groups == 2 ? 1 + g.below(n - 1) : n;
       for (size_t gi = 0; gi < groups; ++gi)
@@ -711,6 +720,7 @@ public:
         for (size_t i = (gi == 0 ? 0 : cut); i < (gi == 0 ? cut : n); ++i) names.push_back("x" + std::to_string(i));
         string in = inner[g.below(6)];
         if (names.size() == 1 && g.chance(1, 3)) in = "Newton1D";
+        if (in == "DownhillSimplex" && !simplexOk) in = "Powell";
         auto io = makeInner(in, f);
         quiet(*io);
         io->setMaximumNumberOfEvaluations(static_cast<unsigned>(maxEval));
@@ -720,7 +730,6 @@ public:
         desc->addOptimizer(in, io, names, static_cast<unsigned short>(derivs(in)),
                            ty);
       }
-      unsigned nn = 1 + static_cast<unsigned>(g.below(3));
       cfg += "/n" + std::to_string(nn);
       o = std::make_shared<bpp::MetaOptimizer>(f, std::move(desc), nn);
     }
@@ -941,7 +950,11 @@ public:
   void runBracket(long id)
   {
     auto f = std::make_shared<HFn>(1);
-    int kind = g.chance(1, 2) ? 0 : 1 + static_cast<int>(g.below(4));
+    // mostly non-quadratic: a parabolic fit is exact on a quadratic, the interesting branches of the outward search
+    // need slopes that flatten quickly (exp family with scale factors up to 6, log-cosh from far away)
+    size_t u = g.below(100);
+    int kind = u < 20 ? 0 : u < 35 ? 1 : u < 50 ? 2 : u < 70 ? 3 : 4;
+    f->smax = 6.;
     makeObjective(g, *f, kind);
     Scenario sc;
     Box& bx = sc.box;
@@ -951,7 +964,7 @@ public:
     double a = m + (g.coin() ? 1. : -1.) * logUniform(g, 0.01, 10.);
     double b;
     if (inward) b = (a < m) ? m + logUniform(g, 0.01, 10.) : m - logUniform(g, 0.01, 10.); // [a,b] contains the minimiser
-    else b = a + (g.coin() ? 1. : -1.) * logUniform(g, 1e-3, 1.);
+    else b = a + (g.coin() ? 1. : -1.) * logUniform(g, 1e-3, 3.);
     bx.has.assign(1, constrained ? 1 : 0);
     bx.il.assign(1, g.coin());
     bx.iu.assign(1, g.coin());
@@ -1025,6 +1038,7 @@ public:
 
 int main(int argc, char** argv)
 {
+  vt::installParamAudit(); // C01: audit of every Parameter of the process when VERIF_PARAM_AUDIT=<file> is set
   string out = argStr(argc, argv, "--out", "");
   long n = argInt(argc, argv, "--n", 150);
   long nbr = argInt(argc, argv, "--brackets", -1);
@@ -1042,10 +1056,11 @@ int main(int argc, char** argv)
   bpp::ApplicationTools::error = std::make_shared<bpp::NullOutputStream>();
   Driver d(envSeed() * 2654435761ULL + 12345ULL + sub * 7919ULL);
   d.quadOnly = argInt(argc, argv, "--quad", 0) != 0;
+  d.steer = argInt(argc, argv, "--nosteer", 0) == 0;
   // every scenario has its own generator, so a single one can be regenerated (--sc ID)
   uint64_t base = envSeed() * 2654435761ULL + 12345ULL + sub * 7919ULL;
   long one = argInt(argc, argv, "--sc", -1);
-  if (nbr < 0) nbr = n / 5;
+  if (nbr < 0) nbr = n / 2;
   for (long id = 0; id < n + nbr; ++id)
   {
     if (one >= 0 && id != one) continue;
